@@ -41,7 +41,7 @@ func init() {
 		MinEvals:        floor(8000, 150000),
 		MinDistinct:     floor(2000, 40000),
 		RequiredCells: func(string) []string {
-			cells := []string{"purity/did/history", "purity/did/concurrent", "purity/did/churn-between-passes", "degenerate/fresh", "degenerate/after-printing-undefined-values", "rsa-shapes", "rsa-shapes/small-exponent", "rsa-shapes/odd-bit-length", "rsa-shapes/modulus-out-of-range", "coerced-secp256k1/normal", "coerced-secp256k1/short-coordinate", "pairs/equal", "pairs/different", "alt/accepted-canonical", "alt/rejected-by-parse", "alt/rejected-by-pubkey", "string/rejected", "string/decorated", "multibase/other", "codec/unsupported", "varint/non-minimal"}
+			cells := []string{"purity/did/history", "purity/did/concurrent", "purity/did/churn-between-passes", "degenerate/fresh", "degenerate/after-printing-undefined-values", "rsa-shapes", "rsa-shapes/small-exponent", "rsa-shapes/odd-bit-length", "rsa-shapes/modulus-out-of-range", "rsa-every-byte-length", "coerced-secp256k1/normal", "coerced-secp256k1/short-coordinate", "pairs/equal", "pairs/different", "alt/accepted-canonical", "alt/rejected-by-parse", "alt/rejected-by-pubkey", "string/rejected", "string/decorated", "multibase/other", "codec/unsupported", "varint/non-minimal"}
 			for _, a := range []string{"ed25519", "secp256k1", "p256", "p384", "p521", "rsa2048", "rsa3072", "rsa4096", "rsa8192"} {
 				cells = append(cells, "roundtrip/"+a)
 			}
@@ -381,6 +381,54 @@ func runC16(w *mon.W) {
 					continue
 				}
 				keys = append(keys, &gen.Principal{Name: name, Alg: alg, Pub: pub, DID: d})
+			}
+		}
+	}
+
+	// an RSA public key of EVERY modulus byte length libp2p accepts (2048 .. 8192 bits in steps of
+	// 8, and one bit less at each step): FromPubKey -> String -> Parse gives the same DID and the
+	// same key (which identifier lengths and prefixes are special cannot be known from outside)
+	{
+		for bits := 2048; bits <= 8192; bits += 8 {
+			if !w.Mine(bits / 8) {
+				continue
+			}
+			for _, bl := range []int{bits, bits - 1} {
+				if bl < 2048 {
+					continue
+				}
+				n := new(big.Int).SetBytes(gen.Bytes(r, (bl+7)/8))
+				n.SetBit(n, bl-1, 1)
+				for b := n.BitLen() - 1; b >= bl; b-- {
+					n.SetBit(n, b, 0)
+				}
+				n.SetBit(n, 0, 1)
+				der, err := x509.MarshalPKIXPublicKey(&rsa.PublicKey{N: n, E: 65537})
+				if err != nil {
+					continue
+				}
+				pub, err := crypto.UnmarshalRsaPublicKey(der)
+				if err != nil {
+					w.Count("rsa-every-length/libp2p-refuses", 1)
+					continue
+				}
+				w.Eval(1)
+				w.Cover("rsa-every-byte-length")
+				d, err := did.FromPubKey(pub)
+				if err != nil {
+					w.Violate("frompubkey-fails/rsa-every-length", fmt.Sprintf("did.FromPubKey fails on an RSA key libp2p accepts (%d-bit modulus): %v", bl, err), map[string]any{"bits": bl})
+					continue
+				}
+				txt := d.String()
+				d2, perr := did.Parse(txt)
+				if perr != nil || d2 != d {
+					w.Violate("roundtrip/parse-of-printed-did/rsa-every-length", fmt.Sprintf("the DID of an RSA key with a %d-bit modulus prints to a %d-character identifier (%s...) that does not parse back to it: %v", bl, len(txt), mon.Trunc(txt, 24), perr),
+						map[string]any{"bits": bl, "identifier_len": len(txt), "identifier_head": mon.Trunc(txt, 40), "error": errStr(perr)})
+					continue
+				}
+				if k, err := d2.PubKey(); err != nil || k == nil || !k.Equals(pub) {
+					w.Violate("roundtrip/pubkey-of-parsed-did/rsa-every-length", fmt.Sprintf("the parsed DID of an RSA key with a %d-bit modulus does not yield that key (err=%v)", bl, err), map[string]any{"bits": bl})
+				}
 			}
 		}
 	}
